@@ -45,7 +45,8 @@ def plan(tier, prop):
                             "multi_block", "level_lt_3_region",
                             "preexisting_waiting", "fill_id_wrap",
                             "op_timeout", "ff_miss_start", "ff_miss_block",
-                            "ff_miss_end"],
+                            "ff_miss_end", "full_blocks_plus_scattered",
+                            "complete_16x16_block"],
         "knob_ranges": {"buffer_size": BUFFERS, "machine": "1x1..16x16 "
                         "(thorough also 64x64/255x255 sparse)",
                         "binaries": "1-4, 4 bytes .. 6 buffers",
@@ -243,9 +244,23 @@ class LoadEngine(object):
                          & 0xff for i in range(size))
             if not free:
                 break
-            style = t.draw(4)
+            style = t.draw(5)
             tg = {}
-            if style == 0:          # a few scattered cores
+            if style == 4:
+                # a few scattered cores first, then one other core on every
+                # chip: the merged full blocks sit beside partial selections
+                w.probe("full_blocks_plus_scattered")
+                p0 = 1 + t.draw(17)
+                for _ in range(1 + t.draw(5)):
+                    x, y, p = free[t.draw(len(free))]
+                    if (x, y, p) not in used and p != p0:
+                        tg.setdefault((x, y), set()).add(p)
+                        used.add((x, y, p))
+                for (x, y, p) in free:
+                    if p == p0 and (x, y, p) not in used:
+                        tg.setdefault((x, y), set()).add(p)
+                        used.add((x, y, p))
+            elif style == 0:          # a few scattered cores
                 for _ in range(1 + t.draw(5)):
                     x, y, p = free[t.draw(len(free))]
                     if (x, y, p) not in used:
@@ -478,6 +493,10 @@ class LoadEngine(object):
         else:
             width = [1, 2, 3, 4, 5, 8, 12, 16][t.draw(8)]
             height = [1, 2, 3, 4, 5, 8, 12, 16][t.draw(8)]
+            if t.draw(12) == 0:
+                # a complete 16x16 block (or four): level-2 regions merge
+                width, height = [(16, 16), (16, 16), (32, 32)][t.draw(3)]
+                w.probe("complete_16x16_block")
         n_cores = [18, 18, 17, 6][t.draw(4)]
         m = self.m = SimMachine.__new__(SimMachine)
         if big:
